@@ -62,7 +62,8 @@ def task(arg):
     regimes = set()
     samples = []
     for si, sd in enumerate(seeds_for(p, tier, seed)):
-        sk = SK.make("hll", p, sd)
+        # one seed per precision is built in shared memory (same estimates are required)
+        sk = SK.make("hll", p, sd, shared_memory=(si == 1))
         fam = si % 2
         off = (seed * 1000003 + si * 7919) % 2**40
         done = 0
@@ -72,7 +73,7 @@ def task(arg):
                 sk.update(keys(fam, off, done, done + step))
                 done += step
             cells += 1
-            case = {"p": p, "seed": sd, "n": n, "family": fam, "offset": off}
+            case = {"p": p, "seed": sd, "n": n, "family": fam, "offset": off, "shared": si == 1}
             try:
                 est = float(sk.query())
             except Exception as e:
@@ -134,21 +135,29 @@ def run(rep):
 
 
 def replay(case):
+    """Replays the HISTORY of the cell: the same monotone build, queried at every grid
+    checkpoint up to n (an estimate may depend on earlier queries of the same object)."""
     from sketchnu import hll_constants as hc
+    from ..common import quiet_shm
 
+    quiet_shm()
     p, sd, n = case["p"], case["seed"], case["n"]
     thr = float(hc.sub_algorithm_threshold[p - 7])
     m = 1 << p
-    sk = SK.make("hll", p, sd)
+    sk = SK.make("hll", p, sd, shared_memory=bool(case.get("shared")))
     done = 0
-    while done < n:
-        step = min(n - done, 200000)
-        sk.update(keys(case["family"], case["offset"], done, done + step))
-        done += step
-    try:
-        est = float(sk.query())
-    except Exception as e:
-        return True, {"query_raised": type(e).__name__}
+    est = None
+    for g in [x for x in n_grid(p, thr) if x <= n]:
+        while done < g:
+            step = min(g - done, 200000)
+            sk.update(keys(case["family"], case["offset"], done, done + step))
+            done += step
+        try:
+            est = float(sk.query())
+        except Exception as e:
+            if g == n:
+                return True, {"query_raised": type(e).__name__}
+    del sk
     if n == 0:
         return est != 0.0, {"estimate": est}
     lc = m * math.log(m / (m - n)) if n < m else float("inf")
